@@ -585,7 +585,13 @@ def _place_faults(r, steps, cfg):
             if not io:
                 kind = "interrupt"
             else:
-                s = r.choice(io)
+                seen, over = set(), []
+                for s2 in _all_steps(steps):
+                    if s2["op"] in IO_OPS_W:
+                        if s2["a"]["path"] in seen and "fault" not in s2 and not s2.get("nested"):
+                            over.append(s2)          # a dump over a path written earlier: there is state to lose
+                        seen.add(s2["a"]["path"])
+                s = r.choice(over) if over and r.random() < 0.5 else r.choice(io)
                 s["fault"] = gen_io_fault(r, s["op"] in IO_OPS_W)
                 continue
         free = [s for s in cands if "fault" not in s and s["op"] != "fs.put"]
@@ -646,7 +652,7 @@ def gen_io_fault(r, writing):
         if k == "short-write":
             return {"kind": k, "sizes": [r.randint(1, 9) for _ in range(r.randint(1, 4))]}
         if k in ("enospc", "write-eio"):
-            return {"kind": k, "at": r.choice([0, 1, 5, 17, 64, 200])}
+            return {"kind": k, "at": r.choice([0, 1, 5, 17, 64, 200]), "once": r.random() < 0.5}
         return {"kind": k}
     k = r.choice(["open-fail", "short-read", "short-read", "read-eio"])
     if k == "open-fail":
